@@ -41,7 +41,8 @@ is obvious at a glance) such that
 Also write a demonstration `{wt}/_seed/demo.py`: a self-contained script (plain asyncio, may use
 asserts; exit code 0 = property observed to hold, non-zero = property violated) that **fails with
 your change and passes on the unchanged tree**. Verify both yourself
-(`git -C {wt} stash` / `git -C {wt} stash pop`, or `git diff > patch; git checkout -- src; ...`).
+(`git -C {wt} diff -- src > /tmp/wt/{name}.patch; git -C {wt} checkout -- src; <run demo>; git -C {wt} apply /tmp/wt/{name}.patch`
+- do NOT use `git stash`: the stash is shared between all worktrees of the repository and other agents work concurrently).
 The unchanged tree has some pre-existing bugs; make sure your demo passes on the unchanged tree,
 i.e. it exercises a behaviour that is correct before your change.
 
